@@ -754,6 +754,9 @@ func genReadProgram(rng *rand.Rand, nmsgs int) []ROp {
 					m = core.Pick(rng, []int{1, 3, 64, 125, 126, 300, 4096, 70000})
 				}
 				ops = append(ops, ROp{K: 1, M: m})
+				if rng.Intn(12) == 0 {
+					ops = append(ops, ROp{K: 1, M: 0}) // a zero-length Read: legal, returns no bytes, disturbs nothing
+				}
 			}
 			if rng.Intn(6) == 0 {
 				ops = append(ops, ROp{K: 2, M: 10})
@@ -761,7 +764,7 @@ func genReadProgram(rng *rand.Rand, nmsgs int) []ROp {
 		default: // abandon part-way
 			ops = append(ops, ROp{K: 0})
 			for j := rng.Intn(4); j > 0; j-- {
-				ops = append(ops, ROp{K: 1, M: core.Pick(rng, []int{1, 5, 125, 1000})})
+				ops = append(ops, ROp{K: 1, M: core.Pick(rng, []int{1, 5, 125, 1000, 0})})
 			}
 			if rng.Intn(5) == 0 {
 				ops = append(ops, ROp{K: 2, M: 4})
